@@ -451,3 +451,71 @@ def _mk_subsumes(name, src_any, dst_any, tier="quick"):
 
 _mk_subsumes("nonstrict_selection_is_subsumption_src_prefixes", True, False)
 _mk_subsumes("nonstrict_selection_is_subsumption_dst_prefixes", False, True)
+
+
+# ------------------------------------------------------------------ the selection predicate itself (callee of the units above)
+
+def _mk_is_matched_by(n_actions):
+  """TableEntry.is_matched_by == (no out_port filter or an output action to out_port) and
+  (strict: same match and same priority | non-strict: the command's match subsumes the entry's match)"""
+  def u(b):
+    from pox.openflow.flow_table import TableEntry
+    prio_e = b.int("entry.priority", 0, 65535)
+    prio_c = b.int("command.priority", 0, 65535)
+    strict = b.bool("strict")
+    filtered = b.bool("out_port_given")
+    out_port = b.int("out_port", 0, 65535)
+    ports = [b.int("action%d.port" % i, 0, 65535) for i in range(n_actions)]
+    is_out = [b.bool("action%d.is_output" % i) for i in range(n_actions)]
+    acts = []
+    for i in range(n_actions):
+      o = b.new(of.ofp_action_output)
+      b.set(o, "port", ports[i])
+      v = b.new(of.ofp_action_vlan_vid)
+      if b.mode == "sym":
+        from pyvc.values import Union
+        acts.append(Union([(is_out[i], o), (b.Not(is_out[i]), v)]))
+      else:
+        acts.append(o if is_out[i] else v)
+    same = b.bool("matches_are_equal")
+    subsumes = b.bool("command_match_subsumes_entry_match")
+    em = b.new(of.ofp_match)
+    cm = b.new(of.ofp_match)
+    e = b.raw_new(TableEntry, match=em, priority=prio_e, actions=b.list(acts))
+    cs = {}
+    if b.mode == "sym":
+      cs = {"pox.openflow.libopenflow_01:ofp_match.__eq__": CallSpec("contract", returns=lambda I, st, a, k: same,
+                                                                      envelope="match equality (C01 units)"),
+            "pox.openflow.libopenflow_01:ofp_match.matches_with_wildcards":
+              CallSpec("contract", returns=lambda I, st, a, k: subsumes, envelope="subsumption (nonstrict_selection_* units)")}
+    else:
+      _NATIVE_MATCH["eq"], _NATIVE_MATCH["sub"] = same, subsumes
+      object.__setattr__(em, "__class__", _StubMatch)     # ofp_match intercepts attribute assignment
+      object.__setattr__(cm, "__class__", _StubMatch)
+    def run(e, cm):
+      if filtered:
+        return e.is_matched_by(cm, priority=prio_c, strict=strict, out_port=out_port)
+      return e.is_matched_by(cm, priority=prio_c, strict=strict)
+    has_out = lambda: any([is_out[i] and ports[i] == out_port for i in range(n_actions)])
+    return Case(run, [e, cm], calls=cs, raises={}, ensures={
+      "selected_iff_port_filter_and_match_rule_hold":
+        lambda res: bool(res) == ((not filtered or has_out()) and ((same and prio_e == prio_c) if strict else subsumes)),
+    })
+  u.__name__ = "is_matched_by_%d_actions" % n_actions
+  u.bound = "entries with 0..2 actions"
+  unit(P, target="pox.openflow.flow_table:TableEntry.is_matched_by")(u)
+
+
+_NATIVE_MATCH = {}
+
+
+class _StubMatch(of.ofp_match):
+  def __eq__(self, other):
+    return _NATIVE_MATCH["eq"]
+
+  def matches_with_wildcards(self, other, consider_other_wildcards=True):
+    return _NATIVE_MATCH["sub"]
+
+
+for _n in (0, 1, 2):
+  _mk_is_matched_by(_n)
